@@ -200,6 +200,11 @@ fixed("F78", "C15", "6f307f1", "C15.hash|iter|compiler::typing::InferContext::re
 fixed("F79", "C03", "d8514e8", "C05.scratch|function-scoped|alloc_ptr_save_local", "`fn dsp(){ let k = 1.0  let f = | | { k + 1.0 }  f() }` on WASM, dsp called directly: emit_runtime_alloc used the local that holds the entry function's saved allocator pointer as its temporary, so the restore at `Return` wrote back the end of the last allocation; `__alloc_ptr` read 1024, 1056, 1088, ... after successive calls instead of staying at 1024 (the module's own protection against per-sample growth never worked; only the host's rewind in WasmDspRuntime::run_dsp hid it) (findings/repro/F79_alloc_save_slot/)")
 
 
+# ---- F80 (mentioned by a seeding agent as a pristine oddity; C18.verbatim derives it)
+fixed("F80", "C18", "f6bed1a", "C18.verbatim|replace|rewrite_infallible_generated_line|?", "`fn dsp(){ let s = \"what? memory.wav\"  1.0 }`: the Rust generator rewrote `?` to `.unwrap()` and `memory.` to `self.memory.` in every finished line of an infallible function, also inside the string literal of the program written into that line: the transpiled program allocates the string \"what.unwrap() self.memory.wav\" (findings/repro/F80_rust_string_literal/)")
+fixed("F80", "C18", "f6bed1a", "C18.verbatim|replace|rewrite_infallible_generated_line|memory.", "same defect, second pattern (`memory.`)")
+
+
 def main():
     extra = os.path.join(HERE, "tools", "findings_more.py")
     if os.path.exists(extra):
